@@ -4,7 +4,7 @@ from harness.core import Violation, HarnessError, run_machine, dec, exc_key, bri
 DESCRIPTION = {
     "level": "exploration",
     "rule": ("Hypothesis RuleBasedStateMachine over a joined session (both frameworks): subscribe (same/different topics; plain callables, details=True, details_arg, "
-             "decorated objects via @wamp.subscribe), SUBSCRIBED replies assigning new or *shared* subscription ids or ERROR, unsubscribe of any live handler, "
+             "decorated objects via @wamp.subscribe, incl. two methods decorated for the same topic with different options), SUBSCRIBED replies assigning new or *shared* subscription ids or ERROR, unsubscribe of any live handler, "
              "UNSUBSCRIBED/ERROR replies in any order, EVENTs for live ids, for ids with an unsubscribe in flight and for ids never held, with all payload shapes and optional "
              "publisher/topic details; handler behaviours {return, raise, return a pending result, unsubscribe itself, unsubscribe a sibling during the callback}.  Oracle = "
              "model id -> ordered list of attached handlers: on each EVENT exactly the handlers in the model at arrival are invoked once each, in subscription order, with exactly "
@@ -146,6 +146,33 @@ class Interp:
                     self.fail("decorated-object-topic-missing", t)
                     return
                 self.pending_sub.append((by_topic[t], h, t))
+            self.w.track(fut)
+            return
+        if kind == "object-opts":
+            # a decorated object whose two handlers are decorated for the SAME topic with different options: each keeps its own
+            hs = [H(len(self.handlers), "details_arg", behaviour), H(len(self.handlers) + 1, "plain", "return")]
+            interp = self
+
+            class Obj2:
+                @wamp.subscribe(topic, SubscribeOptions(details_arg="ev"))
+                def on_a(self_, *args, **kwargs):
+                    return interp.make_fn(hs[0])(*args, **kwargs)
+
+                @wamp.subscribe(topic)
+                def on_b(self_, *args, **kwargs):
+                    return interp.make_fn(hs[1])(*args, **kwargs)
+            try:
+                fut = self.w.call(lambda: self.s.subscribe(Obj2()))
+            except Exception as e:
+                self.fail("subscribe-raised|" + exc_key(e), repr(e))
+                return
+            sent = self.w.t.sent[before:]
+            if len(sent) != 2 or any(type(m).__name__ != "Subscribe" or m.topic != topic for m in sent):
+                self.fail("decorated-object-subscribe-count", repr([type(m).__name__ for m in sent]))
+                return
+            self.handlers.extend(hs)
+            for h, m in zip(hs, sent):       # getmembers() order: on_a, on_b
+                self.pending_sub.append((m.request, h, topic))
             self.w.track(fut)
             return
         h = H(len(self.handlers), kind, behaviour)
@@ -385,7 +412,7 @@ def make_machine_factory(col):
                 holder["steps"] = self.i.steps
                 self.i.apply(step)
 
-            @rule(topic=topics, kind=st.sampled_from(["plain", "plain", "details", "details_arg", "object"]),
+            @rule(topic=topics, kind=st.sampled_from(["plain", "plain", "details", "details_arg", "object", "object-opts"]),
                   behaviour=st.sampled_from(["return", "return", "raise", "pending", "unsub-self", "unsub-next"]))
             def subscribe(self, topic, kind, behaviour):
                 self.ap("subscribe", topic, kind, behaviour)
